@@ -84,6 +84,13 @@ NAMING = {
     'n_p21_keywords': "SCHEMA n_p21_keywords;\nENTITY data; endsec : INTEGER; END_ENTITY;\nENTITY header; iso : OPTIONAL data; END_ENTITY;\nEND_SCHEMA;\n",
     'n_underscores': "SCHEMA n_underscores;\nENTITY a_b; x : INTEGER; END_ENTITY;\nENTITY a_b_c SUBTYPE OF (a_b); END_ENTITY;\nTYPE a_b_t = SELECT (a_b, a_b_c); END_TYPE;\nEND_SCHEMA;\n",
     'n_sdai_prefix': "SCHEMA n_sdai_prefix;\nENTITY sdai; x : INTEGER; END_ENTITY;\nENTITY sdaisdai SUBTYPE OF (sdai); END_ENTITY;\nTYPE schema = INTEGER; END_TYPE;\nENTITY all; y : schema; END_ENTITY;\nEND_SCHEMA;\n",
+    # two supertypes declare different attributes of one name, the subtype redeclares one of them (qualified), and is an item of a select
+    'n_ambig_redecl_2nd': ("SCHEMA n_ambig_redecl;\nTYPE len = REAL; END_TYPE;\nTYPE pos_len = len; WHERE wr1 : SELF > 0.0; END_TYPE;\nENTITY rod; size : len; END_ENTITY;\n"
+                           "ENTITY plate; size : len; thickness : len; END_ENTITY;\nENTITY flat_rod SUBTYPE OF (rod, plate);\n  SELF\\plate.size : pos_len;\nEND_ENTITY;\n"
+                           "ENTITY ball; size : len; END_ENTITY;\nTYPE part = SELECT (flat_rod, ball); END_TYPE;\nENTITY usage; what : part; END_ENTITY;\nEND_SCHEMA;\n"),
+    'n_ambig_redecl_1st': ("SCHEMA n_ambig_redecl;\nTYPE len = REAL; END_TYPE;\nTYPE pos_len = len; WHERE wr1 : SELF > 0.0; END_TYPE;\nENTITY rod; size : len; END_ENTITY;\n"
+                           "ENTITY plate; size : len; thickness : len; END_ENTITY;\nENTITY flat_rod SUBTYPE OF (rod, plate);\n  SELF\\rod.size : pos_len;\n  own : len;\nEND_ENTITY;\n"
+                           "ENTITY ball; size : len; END_ENTITY;\nTYPE part = SELECT (ball, flat_rod); END_TYPE;\nTYPE part2 = SELECT (part, rod); END_TYPE;\nENTITY usage; what : part; also : part2; END_ENTITY;\nEND_SCHEMA;\n"),
     'n_single_letter': "SCHEMA x;\nENTITY a; b : INTEGER; END_ENTITY;\nTYPE c = ENUMERATION OF (d, e); END_TYPE;\nEND_SCHEMA;\n",
 }
 
@@ -204,6 +211,12 @@ def order_dependent(tier):
             k += 1
             yield ('n_ord_sel_%d' % k, 'SCHEMA n_ord;\nTYPE %s = ENUMERATION OF (red, green); END_TYPE;\nTYPE %s = %s; END_TYPE;\nTYPE %s = SELECT (%s, %s); END_TYPE;\n'
                                        'ENTITY %s; nm : STRING; END_ENTITY;\nENTITY job; what : %s; END_ENTITY;\nEND_SCHEMA;\n' % (enum, ren, enum, sel, ent, ren, ent, sel))
+    # (a') a renamed SELECT next to the select it renames, under every assignment of names (which of the two the generator meets first depends on the names)
+    for pool in pools + [('id_select', 'identifier', 'origin', 'source_item')]:
+        for ren, sel, e1, e2 in itertools.permutations(pool):
+            k += 1
+            yield ('n_ord_rsel_%d' % k, 'SCHEMA n_ord;\nENTITY %s; nm : STRING; END_ENTITY;\nENTITY %s; nr : INTEGER; END_ENTITY;\nTYPE %s = SELECT (%s, %s); END_TYPE;\nTYPE %s = %s; END_TYPE;\n'
+                                        'ENTITY job; what : %s; also : OPTIONAL %s; END_ENTITY;\nEND_SCHEMA;\n' % (e1, e2, sel, e1, e2, ren, sel, ren, sel))
     names = [('addon', 'core_schema'), ('plant_extension', 'core_schema'), ('aa', 'zz'), ('zz', 'aa'), ('s2', 's1'), ('s1', 's2')]
     for ext, core in names:
         for indep in ('', 'TYPE own_t = INTEGER; END_TYPE;\n', 'ENTITY own_e; q : INTEGER; END_ENTITY;\n'):
